@@ -18,6 +18,7 @@ VARIANT_WORKER_SHARE = {'bare': 0.7, 'predefined': 0.3}
 MAX_OPS = 50
 
 INTENTS = ['base_type', 'derived_type', 'dup_dimension', 'scaled_unit',
+           'alias_unit',
            'term_unit', 'wrong_dim_term', 'derive_unit', 'derive_bad',
            'plain_unit', 'currency_reg', 'currency_new', 'dup_symbol',
            'empty_symbol', 'wrong_type_scaled', 'evict']
@@ -36,6 +37,7 @@ def gen(seed, run, tier='quick'):
         'derived_type': rng.choice([2, 4, 6]),
         'dup_dimension': rng.choice([0, 1, 2]),
         'scaled_unit': rng.choice([3, 6, 9]),
+        'alias_unit': rng.choice([0, 1, 2]),
         'term_unit': rng.choice([1, 3, 5]),
         'wrong_dim_term': rng.choice([0, 1, 2]),
         'derive_unit': rng.choice([1, 3, 5]),
@@ -307,6 +309,8 @@ def execute(h):
                 if act['a'] == 'term_unit' and len(
                         {model.units[s]['type'] for s, _ in act['items']}) >= 2:
                     bump(probes, 'term_unit_over_2_types')
+                if act.get('alias_of'):
+                    bump(probes, 'alias_unit_declared')
                 if act['a'] == 'scaled_unit' and \
                         model.units[act['parent']]['kind'] != 'ref':
                     bump(probes, 'scaled_off_non_reference_parent')
